@@ -27,6 +27,8 @@ structure XOracles where
   parse : String → String → String → Option String
   /-- `value.strftime(fmt)` for value type `ty` -/
   format : String → String → String → String
+  /-- `type(v).__name__` of the opaque value with the given tag -/
+  typeOf : String → String
 
 inductive XDecl where
   /-- any core declaration -/
@@ -120,8 +122,8 @@ def sEnumVal (ms : List (String × PyVal)) (v : PyVal) : R PyVal :=
       | none => .error (.other "outside-model:foreign-member"))
   | _ => .error (.other "AttributeError")
 
-/-- a temporal value is `.opaque tag` with `tag = ty ++ ":" ++ …` -/
-def xIsKind (ty tag : String) : Bool := (ty ++ ":").isPrefixOf tag
+/-- a temporal value is `.opaque tag` whose Python type is `ty` (`isinstance(value, date)` …) -/
+def xIsKind (XO : XOracles) (ty tag : String) : Bool := XO.typeOf tag == ty
 
 /-- `DateField.deserialize` / `DateTime.deserialize`: `strptime` of a str (ValueError when it does not
     parse), TypeError for anything else; DateTime reads an int between 1e9 and 2e9 as a timestamp
@@ -141,7 +143,7 @@ def dTemporal (XO : XOracles) (ty fmt : String) (ints : Bool) (v : PyVal) : R Py
     its date: outside the model) -/
 def vTemporal (XO : XOracles) (ty fmt : String) (ints : Bool) (v : PyVal) : R PyVal :=
   match v with
-  | .opaque t => if xIsKind ty t then .ok v else .error (.other "outside-model:temporal-conversion")
+  | .opaque t => if xIsKind XO ty t then .ok v else .error (.other "outside-model:temporal-conversion")
   | w => dTemporal XO ty fmt ints w
 
 /-- `value.strftime(format)` -/
